@@ -215,3 +215,108 @@ Definition stratified_estimate (areas means : list Q) (n : nat) : Q :=
                                             (total * (inject_Z (Z.of_nat i) + (1 # 2)) / inject_Z (Z.of_nat n))))
                           means 0)
             (seq 0 n)) / inject_Z (Z.of_nat n).
+
+(* ---- _has_rectangular_cross_section (lines 150-177).  The code compares the two diagonal lengths
+   (square roots); equal lengths <-> equal squared lengths, which is what the exact model compares. ---- *)
+Definition dist2 (a b : pt) : Q := (px a - px b) * (px a - px b) + (py a - py b) * (py a - py b).
+Definition has_rectangular_cross_section (l : list pt) : bool :=
+  match l with
+  | [v1; v2; v3; v4] =>
+    if negb (Qeq_bool (dist2 v1 v3) (dist2 v2 v4)) then false
+    else if negb (Qeq_bool (px v2 - px v1) 0) && negb (Qeq_bool (py v2 - py v1) 0) then false
+    else true
+  | _ => false
+  end.
+
+(* cross-section of the primitive _build_csg_from_rectangle creates: the bounding box *)
+Definition Qmin_l (d : Q) (l : list Q) : Q := fold_right (fun x m => if Qle_bool x m then x else m) d l.
+Definition Qmax_l (d : Q) (l : list Q) : Q := fold_right (fun x m => if Qle_bool m x then x else m) d l.
+Definition bbox_area (l : list pt) : Q :=
+  match l with
+  | [] => 0
+  | p :: _ => (Qmax_l (px p) (map px l) - Qmin_l (px p) (map px l)) * (Qmax_l (py p) (map py l) - Qmin_l (py p) (map py l))
+  end.
+
+(* ---- a uniform variate on the N-point grid {0, 1/N, ..., (N-1)/N} (raysect's uniform() is such a
+   variate with N = 2^53): [hits areas N j] = number of grid values u for which the lookup of
+   line 442 selects triangle j with v = total * u ---- *)
+Definition grid_v (total : Q) (N m : nat) : Q := total * inject_Z (Z.of_nat m) / inject_Z (Z.of_nat N).
+Definition hits (areas : list Q) (N j : nat) : nat :=
+  length (filter (fun m => (select (cumulative areas) (grid_v (Qsum areas) N m) =? Z.of_nat j)%Z) (seq 0 N)).
+
+(* expectation over the grid variate of the mean of the selected triangle: sum_j P_N(j) * mean_j with
+   P_N(j) = hits j / N, and the area-weighted mean it approximates *)
+Definition grid_expectation (areas means : list Q) (N : nat) : Q :=
+  Qsum (map (fun j => inject_Z (Z.of_nat (hits areas N j)) / inject_Z (Z.of_nat N) * nth j means 0) (seq 0 (length areas))).
+Definition area_weighted_mean (areas means : list Q) : Q :=
+  Qsum (map (fun j => nth j areas 0 / Qsum areas * nth j means 0) (seq 0 (length areas))).
+
+(* ---- constructor argument validation with rows of any length and the primitive_type switch
+   (lines 107-118 and 126-135).  Checks happen in this order: number of rows; then row by row: row length
+   (TypeError), r < 0 (ValueError); after the triangulation: primitive_type in {'csg' = 0, 'mesh' = 1}. ---- *)
+Fixpoint validate_rows (rows : list (list Q)) : err + list pt :=
+  match rows with
+  | [] => inr []
+  | [x; y] :: t =>
+    if Qlt_b x 0 then inl ErrValue
+    else match validate_rows t with inl e => inl e | inr l => inr ((x, y) :: l) end
+  | _ :: _ => inl ErrType
+  end.
+Definition construct (rows : list (list Q)) (ptype : Z) : err + list pt :=
+  if (Z.of_nat (length rows) <? 3)%Z then inl ErrType
+  else match validate_rows rows with
+       | inl e => inl e
+       | inr l => if (ptype =? 0)%Z || (ptype =? 1)%Z then inr (normalise l) else inl ErrValue
+       end.
+
+(* ---- emissivity_from_function as called with an integer grid_samples and the flat stream of uniform()
+   values: per pass of the loop u_sel is drawn only when there are >= 2 triangles, then point_triangle draws
+   two more.  grid_samples = 0 -> ZeroDivisionError (None); grid_samples < 0 -> no pass, 0 / n. ---- *)
+Fixpoint take_draws (ntri n : nat) (stream : list Q) : list draw * list Q :=
+  match n with
+  | O => ([], stream)
+  | S k =>
+    if (1 <? ntri)%nat then
+      match stream with
+      | us :: u1 :: u2 :: rest =>
+        let (ds, r) := take_draws ntri k rest in ({| u_sel := us; u_one := u1; u_two := u2 |} :: ds, r)
+      | _ => ([], [])
+      end
+    else
+      match stream with
+      | u1 :: u2 :: rest =>
+        let (ds, r) := take_draws ntri k rest in ({| u_sel := 0; u_one := u1; u_two := u2 |} :: ds, r)
+      | _ => ([], [])
+      end
+  end.
+
+Definition emissivity_call (sqrt : Q -> Q) (f : pt -> Q) (l : list pt) (tris : list tri) (n : Z) (stream : list Q)
+  : option Q * list Q :=
+  if (n =? 0)%Z then (None, stream)
+  else let (ds, rest) := take_draws (length tris) (Z.to_nat n) stream in
+       (Some (Qsum (map (fun d => f (sample_point sqrt l tris d)) ds) / inject_Z n), rest).
+
+(* VoxelCollection.emissivities_from_function (lines 531-557): the voxels in order, one stream *)
+Fixpoint emissivities (sqrt : Q -> Q) (f : pt -> Q) (voxels : list (list pt * list tri)) (n : nat) (stream : list Q)
+  : list Q :=
+  match voxels with
+  | [] => []
+  | (l, tris) :: t =>
+    let (ds, rest) := take_draws (length tris) n stream in
+    emissivity sqrt f l tris ds :: emissivities sqrt f t n rest
+  end.
+
+(* ---- VoxelCollection.__getitem__ / set_active argument policy (lines 481-489, 636-656) ---- *)
+Inductive cerr := CType | CIndex | CValue.
+Inductive item := ItInt (i : Z) | ItAll | ItOther.
+Definition getitem (count : Z) (it : item) : cerr + Z :=
+  match it with
+  | ItInt i => if (0 <=? i)%Z && (i <? count)%Z then inr i else inl CIndex
+  | _ => inl CType
+  end.
+Definition set_active (count : Z) (it : item) : option cerr :=
+  match it with
+  | ItInt i => if (0 <=? i)%Z && (i <? count)%Z then None else Some CIndex
+  | ItAll => None
+  | ItOther => Some CValue
+  end.
